@@ -381,6 +381,8 @@ class PDFPageInterpreter:
     def __init__(self, rsrcmgr: PDFResourceManager, device: PDFDevice) -> None:
         self.rsrcmgr = rsrcmgr
         self.device = device
+        # object ids of the form XObjects currently being rendered
+        self.xobj_stack: List[int] = []
 
     def dup(self) -> "PDFPageInterpreter":
         return self.__class__(self.rsrcmgr, self.device)
@@ -1188,7 +1190,12 @@ class PDFPageInterpreter:
         log.debug("Processing xobj: %r", xobj)
         subtype = xobj.get("Subtype")
         if subtype is LITERAL_FORM and "BBox" in xobj:
+            if xobj.objid is not None and xobj.objid in self.xobj_stack:
+                log.warning("Ignoring form XObject %r that invokes itself", xobjid)
+                return
             interpreter = self.dup()
+            if xobj.objid is not None:
+                interpreter.xobj_stack = self.xobj_stack + [xobj.objid]
             bbox = safe_rect_list(resolve_all(list_value(xobj["BBox"])))
             matrix_list = resolve_all(list_value(xobj.get("Matrix", MATRIX_IDENTITY)))
             matrix = safe_matrix(*matrix_list) if len(matrix_list) == 6 else None
